@@ -24,8 +24,8 @@ ANCHOR_FILES = ["src/ropt/optimization/_optimizer.py", "src/ropt/ensemble_evalua
 RULE = ("case = (mode, V, mask, method/script, options); non-trivial if the mask fixes at least one variable and at least one evaluator row was checked; distinct key = case; "
         "monitor_counters: rows/entries checked, gradient entries checked, nested hand-offs")
 ASSUMPTIONS = ["initial values inside the bounds", "nested cases use no variable transform (domain convention of the hand-off is user code)"]
-REQUIRED = {"quick": {"evaluator_rows_checked": 20000, "fixed_entries_checked": 30000, "gradient_fixed_entries_checked": 2000, "result_vectors_checked": 5000, "algorithm_vectors_checked": 3000, "nested_handoffs": 150, "nested_rows_after_handoff": 1000, "explicit_start_vector": 100, "__nontrivial__": 300},
-            "thorough": {"evaluator_rows_checked": 315045, "fixed_entries_checked": 523595, "gradient_fixed_entries_checked": 60000, "result_vectors_checked": 150000, "algorithm_vectors_checked": 100000, "nested_handoffs": 5000, "nested_rows_after_handoff": 28068, "explicit_start_vector": 903, "__nontrivial__": 4000}}
+REQUIRED = {"quick": {"evaluator_rows_checked": 20000, "fixed_entries_checked": 30000, "gradient_fixed_entries_checked": 2000, "result_vectors_checked": 5000, "algorithm_vectors_checked": 3000, "nested_handoffs": 150, "nested_rows_after_handoff": 1000, "explicit_start_vector": 100, "gradients_with_all_realizations_failed": 25, "__nontrivial__": 300},
+            "thorough": {"evaluator_rows_checked": 315045, "fixed_entries_checked": 523595, "gradient_fixed_entries_checked": 60000, "result_vectors_checked": 150000, "algorithm_vectors_checked": 100000, "nested_handoffs": 5000, "nested_rows_after_handoff": 28068, "explicit_start_vector": 903, "gradients_with_all_realizations_failed": 400, "__nontrivial__": 4000}}
 BOUNDS = {"quick": {"Vmax": 4}, "thorough": {"Vmax": 5}}
 METHODS = ["scripted", "slsqp", "l-bfgs-b", "nelder-mead", "powell", "de", "de_vec"]
 
@@ -102,6 +102,12 @@ def _gen_spec(rng, V, mask, method):
         spec["optimizer"]["max_iterations"] = None
         spec["optimizer"]["speculative"] = False
     spec["optimizer"] = {k: v for k, v in spec["optimizer"].items() if v is not None}
+    if m != "differential_evolution" and rng.random() < 0.3:
+        # failures: with a threshold of zero a gradient is still reported when every perturbation (or everything) of one evaluator
+        # call failed; the entries of the fixed variables are zero in it all the same
+        spec["rmin"] = 0
+        k = int(rng.integers(0, 3))
+        spec["nan"] = [{"call": k, "r": r, "p": p, "col": 0} for r in range(R) for p in range(-1 if rng.random() < 0.3 else 0, P)]
     return spec
 
 
@@ -121,6 +127,8 @@ def _check_results(obs, results, mask, ref, tv, name):
                 obs.violation("fixed_variable_moved_in_result", step=name, field=nm, got=arr[0], reference=ref, mask=mask)
                 return False
         g = getattr(res, "gradients", None)
+        if g is not None and np.all(res.realizations.failed_realizations):
+            obs.count("gradients_with_all_realizations_failed")
         if g is not None:
             for nm in ("weighted_objective", "objectives", "constraints"):
                 arr = getattr(g, nm)
